@@ -265,6 +265,15 @@ impl Qcow2Header {
         // refcount_order is always 4 for version 2
         if header.version == 2 {
             header.refcount_order = 4;
+
+            // A version 2 header ends after 72 bytes; what was parsed into
+            // the version 3 fields is the start of the header extensions
+            // (or of the backing file name).
+            header.incompatible_features = 0;
+            header.compatible_features = 0;
+            header.autoclear_features = 0;
+            header.header_length = 72;
+            header.compression_type = 0;
         }
 
         let cluster_bits = header.cluster_bits;
